@@ -2,7 +2,7 @@ import PV.C19.Model
 import PV.C19.Spec
 /-
   C19 — vocabulary of the property theorems: how a model result is read in reference terms, and
-  the decidable domain predicates that carve out the known deviations of the code.
+  the decidable domain predicate that carves out the known deviations of the splitter.
 -/
 namespace PV.C19
 open Spec
@@ -57,28 +57,6 @@ def smallNumerals : List Nat → Bool
 def InDomain (t : List Nat) : Prop := t.length < i32Max ∧ smallNumerals t = true
 
 instance (t : List Nat) : Decidable (InDomain t) := by unfold InDomain; exact inferInstance
-
-/-- what `format_bytes` keeps of the data: a numeric precision truncates, a lone `.` does not -/
-def rustTrunc (spec : Spec) (b : List Nat) : List Nat :=
-  match spec.prec with
-  | some (.quantity (.amount p)) => b.take p
-  | _ => b
-
-/-- the arguments on which `format_bytes` is claimed to equal Python -/
-def BytesDomain (spec : Spec) (b : List Nat) : Prop :=
-  (spec.prec = some .dot → b = []) ∧
-  ∀ w, spec.width = some (.amount w) → (rustTrunc spec b).length ≤ w
-
-instance (spec : Spec) (b : List Nat) : Decidable (BytesDomain spec b) := by
-  unfold BytesDomain
-  have : Decidable (∀ w, spec.width = some (.amount w) → (rustTrunc spec b).length ≤ w) :=
-    match h : spec.width with
-    | some (.amount w) =>
-      if hw : (rustTrunc spec b).length ≤ w then isTrue (by intro w' e; cases e; exact hw)
-      else isFalse (by intro hh; exact hw (hh w rfl))
-    | some .star => isTrue (by intro w e; cases e)
-    | none => isTrue (by intro w e; cases e)
-  exact inferInstance
 
 /-- a parsed part is well formed: literals are non-empty, the type of a spec is the one its
     conversion character stands for -/
